@@ -58,36 +58,41 @@ CLAIMS["C12"] = dict(
     text="Binding order is the visiting order of the walker, so textual order / exactly-once / completeness are decided by "
          "the C13 walker matrix (every child field visited once, in printer order, stored back in place) re-evaluated here, "
          "plus structural rules on the two callbacks (one traversal over the whole statement, prune only at Parameter leaves, "
-         "FIFO consumption from a private copy, Constant substitution) and a must-pass-through dataflow rule: the value-count "
-         "test dominates fill_query_params and its mismatch branch raises PlanningException; prepare/execute use the same "
-         "stored statement; one reported parameter per placeholder. Does not decide plan equality with inline literals.",
+         "FIFO consumption from a private copy, Constant substitution: both callbacks interpreted on a fixed visit sequence) and "
+         "a lifecycle table: prepare_steps -> get_statement_info -> execute_steps interpreted (fail-closed AST interpreter) on one "
+         "planner stand-in for 5 statement kinds x {0, 2, 3} placeholders x {n-1, n, n+1, no} values, compared by object identity - "
+         "placeholders are collected once from the whole statement and stored, one parameter reported per placeholder, a wrong "
+         "number of values refused with PlanningException before anything is filled, the prepared statement filled with the "
+         "caller's values and the filled statement planned. Does not decide plan equality with inline literals.",
     note="Assumes C13's child-field derivation; planner behaviour on the filled statement is not analysed.",
-    technique="walker visit-order/completeness matrix + dominance (dataflow) of the count check + callback shape rules")
+    technique="walker visit-order/completeness matrix + abstract interpretation of the two callbacks and of the prepare/execute lifecycle on stand-ins")
 
 CLAIMS["C18"] = dict(
     level="other", engine="pyflow",
     text="Protocol lints, exhaustive over all classes: copy() is copy.deepcopy; every customised copier transfers every "
          "attribute an instance can carry (set by the class or attached from outside on provably fresh instances) and "
          "mutable ones by deepcopy - absence of sharing is structural, which discharges the all-mutations quantifier; no "
-         "constructor stores a mutable default; every __eq__ returns a bool on all CFG paths, its conditions are closed under "
-         "swapping self/other, vars(self)-driven comparison skips every late attribute; ASTNode.__eq__ conjoins tree and "
-         "printed-text equality; __hash__ returns an int built from fields __eq__ compares.",
+         "constructor stores a mutable default; every __eq__ returns a bool on all CFG paths and is interpreted on stand-ins built "
+         "from the class's own fields (identical, one field different, None on one side, shorter list, late attribute, other class, "
+         "non-object): boolean, never raises, same in both directions, transitive - the swap-closure rule on its conditions only "
+         "where interpretation is impossible; vars(self)-driven comparison skips every late attribute; ASTNode.__eq__ conjoins "
+         "tree and printed-text equality; __hash__ interpreted on the same objects is an int and equal objects hash alike.",
     note="Relies on copy.deepcopy semantics for classes without copy hooks; equality of concrete trees/plans is not "
          "evaluated.",
-    technique="copy/eq/hash protocol lints: attribute-set completeness, all-paths-return dataflow, swap-invariance of conditions")
+    technique="copy/eq/hash protocol lints: attribute-set completeness, all-paths-return dataflow, equality / hash / copier tables by abstract interpretation")
 
 CLAIMS["C19"] = dict(
     level="other", engine="grammar-lalr",
     text="Decides the table-level facts the mindsdb error message is built from, for all LALR states and all tokens: the "
          "expected-token list can contain nonassoc error entries, and no unverified suggestion (single candidate / "
-         "end-of-input listing) may be one; every display string (filter partially evaluated from make_suggestion's source) "
+         "end-of-input listing) may be one; every display string (the head of make_suggestion interpreted per token type and per state) "
          "lexes back to exactly its token under the ordered master regex and every grammar token is reachable by the lexer; "
          "placeholder values are convertible by the grammar actions; every other suggestion is dominated by a successful "
          "re-parse of this call's tokens; the echoed text/caret width do not come from lexer-rewritten token values; the lexer "
          "error callback always raises. Caret/line offset arithmetic over arbitrary layouts is NOT decided.",
     note="Trusted: sly passes list(actions[state].keys()) as expected tokens (anchor checked); LALR tables as in C03. The "
          "position arithmetic of error_location and LR(1)-exact acceptability of merged reduce look-aheads are outside.",
-    technique="LALR table scan x partially evaluated suggestion filter x first-match lexer simulation; dominance of re-parse")
+    technique="LALR table scan x interpreted suggestion filter x first-match lexer simulation; dominance of re-parse; interpreted lexer error callback")
 
 CLAIMS["C20"] = dict(
     level="other", engine="pyflow",
@@ -161,17 +166,17 @@ CLAIMS["C02"] = dict(
 CLAIMS["C04"] = dict(
     level="other", engine="grammar-lalr",
     text="Agreement of finite tables extracted from source: per dialect and quoted-string token, the literal syntax admitted by "
-         "the lexer pattern (delimiter, backslash escapes, doubled delimiter) vs the decoder read from the grammar action "
-         "(replace/strip/slice chain or helper with one re.sub whose callback is partially evaluated), compared with the "
+         "the lexer pattern (delimiter, backslash escapes, doubled delimiter) vs the decoder = the grammar action with the helpers "
+         "it calls, interpreted on the token text by a fail-closed AST interpreter (nothing imported or executed), compared with the "
          "reference SQL denotation on a generated family of accepted literals covering every escape form and combination; "
-         "structural rules against sequential global replaces and strip() on delimiter-capable content; the printer "
-         "Constant.get_string against each dialect's own syntax on value probes; @variable decoder per pattern alternative and "
+         "the printer Constant.get_string (interpreted the same way) against each dialect's own syntax on value probes; "
+         "@variable decoder per pattern alternative and "
          "printer read-back; provenance over every grammar action x production: dot-splitting only on ID text, no case change; "
          "path splitting regex and identifier quoting against the lexer. Equality for ALL strings is NOT decided (finite "
          "representative family); numbers are covered structurally by C02.R4/R5.",
     note="Reference denotation (backslash escapes of backslash and quotes, doubled delimiters, unknown escapes keep the "
          "backslash) is the library's own rule; an identifier part containing a back-quote has no readable spelling (listed).",
-    technique="codec table agreement: regex-derived literal syntax x extracted decoder/encoder rewrite chains on generated probes")
+    technique="codec table agreement: regex-derived literal syntax x abstractly interpreted decoder/encoder functions on generated probes")
 
 CLAIMS["C07"] = dict(
     level="other", engine="pyflow",
@@ -190,7 +195,8 @@ CLAIMS["C01"] = dict(
     level="other", engine="pyflow",
     text="Round-trip equality over all accepted strings is NOT decided. Decided are the mechanisms the statement names, as "
          "structural rules over all three grammars and all ~80 AST printers: every `( expr|select|union|query )` production "
-         "marks the returned node (must-set dataflow), ASTNode.to_string composes alias(parentheses(get_string())) and "
+         "returns the inner node with the parentheses mark set (its action interpreted on a production record; must-set dataflow as "
+         "fallback), ASTNode.to_string composes alias(parentheses(get_string())) and "
          "overriding classes honour both; every identifier-shaped word the ordered lexer turns into a keyword that the grammar "
          "does not accept as id is in the statically evaluated reserved set of the identifier printer; every field to_tree "
          "shows is read by the SQL printer; a field is printed under its own guard only unless the grammar makes the guard "
@@ -199,7 +205,7 @@ CLAIMS["C01"] = dict(
          "text that lexes back to that token.",
     note="Necessary conditions only: keyword order / optional clauses / spacing of every get_string versus its grammar rule "
          "are the round trip itself and are not analysed; copy() is C18.",
-    technique="must-set dataflow on parenthesis rules + reserved-set evaluation vs lexer simulation + printer/tree field matrices")
+    technique="abstract interpretation of parenthesis actions and leaf printers + reserved-set evaluation vs lexer simulation + printer/tree field matrices")
 
 CLAIMS["C06"] = dict(
     level="other", engine="pyflow",
@@ -207,9 +213,9 @@ CLAIMS["C06"] = dict(
          "agreement / exhaustiveness between the grammars' finite vocabularies and the renderer's dispatch code: the language "
          "of join_clause (9 strings, enumerated from the three grammars) is pushed through a partial evaluation of the join "
          "dispatch of prepare_select and compared with the reference (join|outerjoin, full) table - kinds SQLAlchemy cannot "
-         "express must end in NotImplementedError; prepare_union maps class x unique to the six set constructors; the shared "
-         "order-by translation handles ASC/DESC and NULLS FIRST/LAST per term (no state carried between terms) and is used "
-         "by SELECT and OVER(); every operator spelling the grammars produce agrees with the reference method table; every "
+         "express must end in NotImplementedError; prepare_union interpreted on two-operand and nested set operations maps class x unique to the six "
+         "set constructors with the tree's structure; to_order_by interpreted on 25 single terms and 4 lists gives every term exactly its "
+         "own ASC/DESC and NULLS FIRST/LAST, and is what SELECT and OVER() use; every operator spelling the grammars produce agrees with the reference method table; every "
          "semantic field of Select/WindowFunction/Function/Case/TypeCast/OrderBy/Join/CTE/Insert/Update/Delete/CreateTable/"
          "TableColumn/DropTables is effectively read by the code that renders that class (receiver-resolved) or refused; "
          "generative SQLAlchemy results are never discarded; every aliasable to_expression branch reads t.alias.",
@@ -224,15 +230,16 @@ CLAIMS["C10"] = dict(
          "sites, returns, returned dict entries) proves that every key stored into the catalog by QueryPlanner.__init__, every "
          "key looked up in databases/projects/integrations/predictor_info, every value compared with a catalog name and every "
          "FetchDataframeStep(integration=) is lower-cased on every path; both resolvers (resolve_database_table, "
-         "PlanJoinTablesQuery.resolve_table) obey the same decision rule (pop the first part only under len > 1 and normalised "
-         "membership, keep it lower-cased, default namespace otherwise, PlanningException when none); "
+         "PlanJoinTablesQuery.resolve_table) interpreted on 12 name shapes x default namespace x alias x single-integration catalog give "
+         "the same decision (first part is the database exactly when the name has more parts and that part in any letter case is a "
+         "database, reported lower-cased; default namespace otherwise; PlanningException when none; the reference unchanged); "
          "prepare_integration_select and get_query_info are interpreted on probe identifiers / queries (fail-closed AST "
          "interpreter): the qualifier is stripped exactly for multi-part names whose first part is the integration in any "
          "letter case, a CTE shadows exactly its unqualified name; table branches are control-dependent on `not a model`; "
          "steps that name a model take the name (with version) from the reference in the query.",
     note="Table discovery completeness is C13's verdict (a position the walker skips is invisible to routing). Dead code "
          "(functions referenced nowhere in mindsdb_sql) carries no obligations and is listed in the evidence notes.",
-    technique="interprocedural must-dataflow (case-normalised names) + guard extraction on the sibling resolvers + truth table of the CTE filter")
+    technique="interprocedural must-dataflow (case-normalised names) + truth tables (abstract interpretation) of the resolvers, model lookup, qualifier strip and CTE filter")
 
 CLAIMS["C11"] = dict(
     level="other", engine="pyflow",
@@ -242,7 +249,7 @@ CLAIMS["C11"] = dict(
          "{api, sql, absent, not in catalog}: 80 rows each) and must accept exactly the rows the statement names; on "
          "acceptance the only effects are prepare_integration_select(<gate integration>, <analysed query>) and one "
          "add_step(FetchDataframeStep(integration=<gate integration>, query=<same object>)) followed by an immediate return "
-         "(from_query: return self.plan), on refusal no effect; prepare_integration_select interpreted on ~480 probe "
+         "(PlanJoin.plan and from_query interpreted with the gate's answer given), on refusal no effect; prepare_integration_select interpreted on ~480 probe "
          "identifiers removes exactly the integration qualifier and adds exactly the output-name alias, writes nothing else "
          "and replaces no node; get_query_info interpreted on 13 probe queries classifies references as the gate expects; the "
          "walker it relies on is re-analysed with C13's model (every field visited once with the right flags).",
